@@ -77,6 +77,21 @@ func c16Shapes() []*c16Case {
 		s := gram.Parse("S", []string{n}, "S: S "+n+" | "+n)
 		add("token-name-"+n, s)
 	}
+	// names with one character of each Unicode class that comes near an identifier: letters and decimal
+	// digits are accepted by yaccgo and by both target languages; if yaccgo lets any of the others
+	// through, the constant it emits for the token must still be an identifier of the target language
+	for _, n := range []string{"mñ", "Tπ", "m٢", "m²", "CO₂", "x½", "n①", "RⅧ", "x‿y", "e\u0301x", "T·b", "Tー"} {
+		s := gram.Parse("S", []string{n}, "S: S "+n+" | "+n)
+		add("token-name-unicode-"+n, s)
+		s2 := gram.Parse(n, []string{"TA", "TB"}, n+": "+n+" TA | TB")
+		add("nonterminal-name-unicode-"+n, s2)
+	}
+	// character literals that are white space or beyond ASCII
+	for _, ch := range []string{" ", "\t", "\n", "é", "€", "\u00a0"} {
+		lit := "'" + ch + "'"
+		ws := &gram.Spec{Start: "S", Tokens: []gram.TokDecl{{Name: "TA"}}, Rules: []gram.Rule{{L: "S", R: []string{"S", lit, "TA"}}, {L: "S", R: []string{"TA"}}}}
+		add(fmt.Sprintf("literal-special-%q", ch), ws)
+	}
 	for _, n := range []string{"start", "s", "a", "E", "e1", "_n", "Expr_list", "S"} {
 		s := gram.Parse(n, []string{"TA", "TB"}, n+": "+n+" TA | TB")
 		add("nonterminal-name-"+n, s)
@@ -106,6 +121,15 @@ func c16Shapes() []*c16Case {
 	twice2.HasUnion = true
 	twice2.Tokens = []gram.TokDecl{{Name: "TA", Tag: "v"}, {Name: "TB"}, {Name: "TC"}, {Name: "TD"}, {Name: "TA", Num: 4}}
 	add("token-renumbered-into-automatic-range", twice2)
+	// explicit numbers that are not distinct: whatever yaccgo makes of them, a file it writes must compile
+	dup := gram.Parse("S", nil, "S: TA TB")
+	dup.Tokens = []gram.TokDecl{{Name: "TA", Num: 300}, {Name: "TB", Num: 300}}
+	add("two-tokens-one-number", dup)
+	dupLit := &gram.Spec{Start: "S", Tokens: []gram.TokDecl{{Name: "TP", Num: 43}}, Rules: []gram.Rule{{L: "S", R: []string{"TP", "'+'"}}}}
+	add("token-number-equals-literal-code", dupLit)
+	dupAuto := gram.Parse("S", nil, "S: TA TB TC")
+	dupAuto.Tokens = []gram.TokDecl{{Name: "TA"}, {Name: "TB"}, {Name: "TC", Num: 1}}
+	add("token-number-one", dupAuto)
 	end := gram.Parse("S", nil, "S: TA")
 	end.Tokens = []gram.TokDecl{{Name: "TA"}, {Name: "END", Num: -1}}
 	add("token-numbered-minus-one", end)
